@@ -1,14 +1,146 @@
 (* C14 -- DWARF expression / CFI encodings round-trip and match the standard.
-   Only statements, each closed by `exact`; proofs live in Dwarf/*Proofs.v. *)
-From Coq Require Import ZArith List.
-From GR Require Import Base.Result Dwarf.Leb128 Dwarf.Leb128Proofs.
+   Statements only; every proof is `exact <lemma>` into Dwarf/*Proofs.v.
+   The class tables (expr_table, cfi_table), the validate kernels, _int_domain, the fused
+   opcode arithmetic and the make_const_op decision chain are REGENERATED from
+   /repo/src/gtirb_rewriting/dwarf on every run (Gen/DwarfGen.v). *)
+From Coq Require Import ZArith List String.
+From GR Require Import Base.Result Dwarf.Leb128 Dwarf.Leb128Proofs Dwarf.IntCodec Dwarf.IntCodecProofs
+     Dwarf.Types Gen.DwarfGen Dwarf.Codec Dwarf.CodecProofs Dwarf.InstProofs Dwarf.ConstOp
+     Dwarf.ConstOpProofs Dwarf.Std4 Dwarf.DirectiveProofs.
 Import ListNotations.
 Open Scope Z_scope.
 
+(* --- LEB128: round trip for every integer, and the standard's value equation --- *)
 Theorem C14_uleb_roundtrip : forall i rest, 0 <= i ->
-  uleb_decode (uleb_encode i ++ rest) = Ok (i, Z.of_nat (length (uleb_encode i)), rest).
+  uleb_decode (uleb_encode i ++ rest)%list = Ok (i, Z.of_nat (List.length (uleb_encode i)), rest).
 Proof. exact uleb_roundtrip. Qed.
 
 Theorem C14_sleb_roundtrip : forall i rest,
-  sleb_decode (sleb_encode i ++ rest) = Ok (i, Z.of_nat (length (sleb_encode i)), rest).
+  sleb_decode (sleb_encode i ++ rest)%list = Ok (i, Z.of_nat (List.length (sleb_encode i)), rest).
 Proof. exact sleb_roundtrip. Qed.
+
+(* sum of (byte mod 128) * 128^k is the value; all bytes are bytes *)
+Theorem C14_uleb_standard_value : forall i, 0 <= i ->
+  uleb_value (uleb_encode i) = i /\ bytes_ok (uleb_encode i).
+Proof. intros i Hi. split; [exact (uleb_value_eq i Hi)|exact (uleb_bytes_ok i Hi)]. Qed.
+
+(* shortest: k bytes suffice exactly when the value fits in 7k bits *)
+Theorem C14_uleb_length : forall i k, 0 <= i ->
+  (List.length (uleb_encode i) <= S k)%nat <-> i < 128 ^ Z.of_nat (S k).
+Proof. exact uleb_length_le. Qed.
+Theorem C14_sleb_length : forall i k,
+  (List.length (sleb_encode i) <= S k)%nat <-> - (64 * 128 ^ Z.of_nat k) <= i < 64 * 128 ^ Z.of_nat k.
+Proof. exact sleb_length_le. Qed.
+
+(* --- fixed-size integers, both byte orders, signed and unsigned --- *)
+Theorem C14_fixed_int_roundtrip : forall n big signed v bs,
+  to_bytes n big signed v = Ok bs ->
+  0 <= n /\ List.length bs = Z.to_nat n /\ from_bytes big signed bs = v /\ Forall (fun b => 0 <= b < 256) bs.
+Proof. exact to_bytes_ok. Qed.
+
+(* --- the registries: opcode ranges pairwise disjoint, lookup finds the declaring class --- *)
+Theorem C14_registry_disjoint :
+  ranges_disjoint expr_table = true /\ ranges_disjoint cfi_table = true /\
+  table_ok expr_table = true /\ table_ok cfi_table = true.
+Proof. exact (conj expr_ranges_disjoint (conj cfi_ranges_disjoint (conj expr_table_ok cfi_table_ok))). Qed.
+
+(* --- opcode numbers and operand forms are those of DWARF v4 --- *)
+Theorem C14_matches_standard : agrees expr_table std4_expr = true /\ agrees cfi_table std4_cfi = true.
+Proof. split; vm_compute; reflexivity. Qed.
+
+(* --- decode (encode x ++ rest)%list = (x, len, rest): every operation, every operand, both byte
+       orders, every pointer size --- *)
+Theorem C14_op_roundtrip : forall (o : eop) big ps bs rest,
+  0 <= ps -> encode_op o big ps = Ok bs ->
+  decode_op (bs ++ rest)%list big ps = Ok (o, Z.of_nat (List.length bs), rest).
+Proof. exact op_roundtrip. Qed.
+
+Theorem C14_inst_roundtrip : forall (o : Codec.inst) big ps bs rest,
+  0 <= ps -> encode_inst o big ps = Ok bs ->
+  decode_inst (bs ++ rest)%list big ps = Ok (o, Z.of_nat (List.length bs), rest).
+Proof. exact inst_roundtrip. Qed.
+
+(* nested expressions inside CFI instructions *)
+Theorem C14_expr_roundtrip : forall ops big ps bs rest,
+  0 <= ps -> encode_expr ops big ps = Ok bs ->
+  decode_expr (bs ++ rest)%list big ps = Ok (ops, Z.of_nat (List.length bs), rest).
+Proof. exact expr_roundtrip. Qed.
+
+(* --- operands outside the range are rejected, with ValueError, and only those --- *)
+Theorem C14_op_encode_total_iff : forall (o : eop) big ps,
+  0 <= ps -> ((exists bs, encode_op o big ps = Ok bs) <-> op_valid o ps).
+Proof. exact op_encode_total_iff. Qed.
+
+Theorem C14_op_reject_is_ValueError : forall (o : eop) big ps c e,
+  0 <= ps -> nth_error expr_table (o_cls o) = Some c ->
+  List.length (o_args o) = List.length (cfields c) ->
+  encode_op o big ps = Err e -> e = ValueErr.
+Proof. exact op_encode_error. Qed.
+
+Theorem C14_inst_encode_total_iff : forall (o : Codec.inst) big ps c,
+  0 <= ps -> nth_error cfi_table (o_cls o) = Some c ->
+  ((exists bs, encode_inst o big ps = Ok bs) <->
+   (validate_args fval_codec (cfields c) (o_args o) (Some ps) = true /\
+    Forall2 (fun f a => is_fused (snd f) = false -> fval_shaped (snd f) a /\ fval_nested_ok a big ps)
+            (cfields c) (o_args o))).
+Proof. exact inst_encode_total_iff. Qed.
+
+Theorem C14_inst_reject_is_ValueError : forall (o : Codec.inst) big ps c e,
+  0 <= ps -> nth_error cfi_table (o_cls o) = Some c ->
+  Forall2 (fun f a => fval_shaped (snd f) a) (cfields c) (o_args o) ->
+  encode_inst o big ps = Err e -> e = ValueErr.
+Proof. exact inst_encode_error. Qed.
+
+(* the accept ranges themselves (characterisation of the generated validate kernels) *)
+Theorem C14_ranges : forall v p n ub ps,
+  (validate_AddToOpcodeEncoder ub v p = true <-> 0 <= v < ub) /\
+  (validate_ULEB128Encoder v p = true <-> 0 <= v) /\
+  (validate_UIntEncoder n v p = true <-> 0 <= v < 2 ^ (8 * n)) /\
+  (validate_SIntEncoder n v p = true <-> - 2 ^ (8 * n - 1) <= v < 2 ^ (8 * n - 1)) /\
+  (validate_UIntPtrEncoder v (Some ps) = true <-> 0 <= v < 2 ^ (8 * ps)).
+Proof.
+  intros v p n ub ps.
+  exact (conj (validate_add_spec ub v p) (conj (validate_uleb_spec v p) (conj (validate_uint_spec n v p)
+        (conj (validate_sint_spec n v p) (validate_uptr_spec_some v ps))))).
+Qed.
+
+(* --- parse_cfi_instructions inverts concatenation --- *)
+Theorem C14_parse_concat : forall l big ps bs,
+  0 <= ps -> encode_insts l big ps = Ok bs -> parse_cfi_instructions bs big ps = Ok l.
+Proof. exact parse_concat. Qed.
+
+(* --- the directive / operand form handed to GTIRB re-encodes to the same bytes --- *)
+Theorem C14_directive_reencode : forall (o : Codec.inst) big ps d ops bs,
+  operands o big ps = Ok (d, ops) -> encode_inst o big ps = Ok bs -> reencode d ops big ps = Ok bs.
+Proof. exact directive_reencode. Qed.
+
+(* --- make_const_op: exactly the requested value, on exactly [-2^63, 2^64), shortest --- *)
+Theorem C14_const_op_pushes : forall v, - 2 ^ 63 <= v < 2 ^ 64 ->
+  exists n j, In n const_class_names /\ index_of n expr_table 0 = Some j /\
+              make_const_op v = Ok (mk_obj j [v]).
+Proof. exact make_const_op_pushes. Qed.
+
+Theorem C14_const_op_rejects : forall v, ~ (- 2 ^ 63 <= v < 2 ^ 64) -> make_const_op v = Err ValueErr.
+Proof. exact make_const_op_rejects. Qed.
+
+Theorem C14_const_op_shortest : forall v o big ps bs m j' bs',
+  (ps = 4 \/ ps = 8) ->
+  make_const_op v = Ok o -> encode_op o big ps = Ok bs ->
+  In m const_class_names -> index_of m expr_table 0 = Some j' ->
+  encode_op (mk_obj j' [v]) big ps = Ok bs' ->
+  (List.length bs <= List.length bs')%nat.
+Proof. exact make_const_op_shortest. Qed.
+
+(* --- non-vacuity: concrete objects meet the hypotheses --- *)
+Example C14_example_breg :
+  exists j, index_of "OpBReg"%string expr_table 0 = Some j /\
+            encode_op (mk_obj j [7; -8]) false 8 = Ok [0x77; 0x78].
+Proof. eexists. split; vm_compute; reflexivity. Qed.
+
+Example C14_example_nested :
+  exists j k, index_of "InstExpression"%string cfi_table 0 = Some j /\ index_of "OpBReg"%string expr_table 0 = Some k /\
+    encode_inst (mk_obj j [FInt 7; FExpr [mk_obj k [7; -8]]]) true 4 = Ok [0x10; 7; 2; 0x77; 0x78].
+Proof. eexists. eexists. repeat split; vm_compute; reflexivity. Qed.
+
+Example C14_example_const : exists o, make_const_op 70000 = Ok o /\ encode_op o false 8 = Ok [0x10; 0xf0; 0xa2; 0x04].
+Proof. eexists. split; vm_compute; reflexivity. Qed.
